@@ -24,6 +24,9 @@ def main(tier, t0):
                                    structure_filter=lambda st: not _consistent(st) and "shapemap" not in st["tags"])
     tasks += stage_check.tasks_for("C03", tier, scenario="pair:all_instances_are_compliant_mode", judge="C13", sizes=_sizes, cfg={}, findings_prop="C13",
                                    structure_filter=lambda st: st["name"] in ("opt-literal", "literal-cards", "incoming-cards"))
+    # larger classes (one deviating instance among 25 / 60): "almost all" is not "all"
+    tasks += stage_check.tasks_for("C03", tier, scenario="single", sizes=lambda t, k: [25] if t == "quick" else [25, 60], cfg=cfg, label="large-class",
+                                   structure_filter=lambda st: st["name"] in ("opt-literal", "twice-or-never"))
     tasks += step_check.tasks("C01", tier)      # the per-instance counts that feed the cardinalities (feature-pass transitions)
     return stage_check.main("C03", tier, t0, tasks=tasks,
                             explanation="threshold 0, all-compliant mode: on every path the emitted (concrete) schema is read back and every row instance is validated against the shape of each of its "
